@@ -1603,4 +1603,59 @@ theorem influx_reset_after_append_leaks_rejected_line :
 
 end Neg
 
+/-! ## Round 12 — the family scan for calculators whose range may exclude the timestamp it was computed from
+
+`partition` is stated for calculators meeting `CalcSpec`; `CalcSpec.self` (the range computed from a
+timestamp contains it) is what the real month calculator violates on a local day without 00:00
+(recorded finding). `Route.familyGroupsCode` is the iterator as the code runs it for ANY calculator. -/
+
+theorem familyScanF_eq_runs (C : Calc) (hself : ∀ t, contains (C.range t) t = true) :
+    ∀ (n : Nat) (l : List BRow), l.length ≤ n →
+      familyScanF C n l = (runs (inFamilyOf C) l).map (fun g => (C.famTime g.1.row.ts, g.1 :: g.2))
+  | 0, [], _ => by simp [familyScanF, runs]
+  | 0, _ :: _, h => by simp at h
+  | n + 1, [], _ => by simp [familyScanF, runs]
+  | n + 1, a :: rest, h => by
+    have hlen : (rest.dropWhile (inFamilyOf C a)).length ≤ n := by
+      have := (List.dropWhile_sublist (l := rest) (inFamilyOf C a)).length_le
+      simp only [List.length_cons] at h
+      omega
+    rw [familyScanF, runs]
+    simp only [inFamilyOf, hself, if_true, List.map_cons]
+    rw [← familyScanF_eq_runs C hself n _ hlen]
+
+/-- **for a calculator whose ranges contain their own timestamp the code's iterator is `familyGroups`**
+(the model `partition` and the fast/slow-path theorems are about) -/
+theorem family_iterator_code_eq_model (C : Calc) (hself : ∀ t, contains (C.range t) t = true)
+    (sortTs : List BRow → List BRow) (l : List BRow) :
+    familyGroupsCode C sortTs l = familyGroups C sortTs l := by
+  cases l with
+  | nil => rfl
+  | cons a rest =>
+    simp only [familyGroupsCode, familyGroups, familyScan]
+    split
+    · rfl
+    · exact familyScanF_eq_runs C hself _ _ (Nat.le_refl _)
+
+namespace Neg
+
+/-- a month-type calculator in a zone that moves the clock at local midnight, cut down to what matters:
+one family per day, but on day 1 (the day without 00:00) CalcFamilyEndTime returns start - 1 -/
+def noMidnightCalc : Calc where
+  famTime t := t - t % oneDay
+  range t := if t / oneDay = 1 then (t - t % oneDay, t - t % oneDay - 1)
+             else (t - t % oneDay, t - t % oneDay + oneDay - 1)
+
+def rowAt (id : Nat) (ts : Int) : BRow := ⟨id, ⟨"r", "ns", ts, [], [], none, 0, 0⟩, 0, false⟩
+
+/-- one series, a row on day 2 and a row on day 1 (the day whose range is empty): the code's iterator
+hands out NOTHING — both rows are silently not written; a calculator meeting `CalcSpec` would give two
+groups (`partition`) -/
+theorem empty_family_range_rows_not_written :
+    contains (noMidnightCalc.range (oneDay + 5)) (oneDay + 5) = false ∧
+    familyGroupsCode noMidnightCalc (insertionSort lessTs) [rowAt 0 (2 * oneDay + 5), rowAt 1 (oneDay + 5)] = [] := by
+  decide
+
+end Neg
+
 end LinVerif.Props.C16
